@@ -111,6 +111,27 @@ pub fn install_panic_hook() {
 	}));
 }
 
+static TOLERATED_PANICS: Mutex<Vec<(String, String)>> = Mutex::new(Vec::new());
+
+/// Declare a library panic that is an *observation*, not a verdict of the property under test: a case that
+/// ends in a panic whose message contains `substr` is counted as held and labelled `label`. (Used for
+/// debug assertions whose release behaviour satisfies the property; each use is justified in DESIGN.md §9.3.)
+pub fn tolerate_panic(substr: &str, label: &str) {
+	TOLERATED_PANICS.lock().unwrap().push((substr.to_string(), label.to_string()));
+}
+
+/// Turn the panic that just ended a case into its verdict.
+fn panic_verdict(ctx: &mut Ctx) -> CaseResult {
+	let (msg, loc) = take_last_panic().unwrap_or_default();
+	for (sub, label) in TOLERATED_PANICS.lock().unwrap().iter() {
+		if msg.contains(sub.as_str()) {
+			ctx.label(label);
+			return Ok(());
+		}
+	}
+	Err(Failure { oracle: "panic".into(), detail: format!("panic at {}: {}", loc, msg), key: format!("panic@{}", loc) })
+}
+
 pub fn take_last_panic() -> Option<(String, String)> {
 	LAST_PANIC.with(|p| p.borrow_mut().take())
 }
@@ -570,10 +591,7 @@ impl Check {
 						CASE_STARTS.lock().unwrap()[w as usize] = None;
 						let r: CaseResult = match r {
 							Ok(r) => r,
-							Err(_) => {
-								let (msg, loc) = take_last_panic().unwrap_or_default();
-								Err(Failure { oracle: "panic".into(), detail: format!("panic at {}: {}", loc, msg), key: format!("panic@{}", loc) })
-							},
+							Err(_) => panic_verdict(&mut ctx),
 						};
 						if !failed_once.get() {
 							let mut st = stats_cell.borrow_mut();
@@ -620,9 +638,13 @@ impl Check {
 							let r = catch_unwind(AssertUnwindSafe(|| oracle(&v, &mut ctx)));
 							let f = match r {
 								Ok(Err(f)) => f,
-								Err(_) => {
-									let (msg, loc) = take_last_panic().unwrap_or_default();
-									Failure { oracle: "panic".into(), detail: format!("panic at {}: {}", loc, msg), key: format!("panic@{}", loc) }
+								Err(_) => match panic_verdict(&mut ctx) {
+									Err(f) => f,
+									Ok(()) => {
+										let mut f = last_fail.borrow().clone().unwrap_or(Failure::new("unknown", "no failure recorded"));
+										f.detail = format!("[did not reproduce on re-evaluation of shrunk value] {}", f.detail);
+										f
+									},
 								},
 								Ok(Ok(())) => {
 									let mut f = last_fail.borrow().clone().unwrap_or(Failure::new("unknown", "no failure recorded"));
@@ -725,10 +747,7 @@ impl Check {
 							CASE_STARTS.lock().unwrap()[w] = None;
 							let r: CaseResult = match r {
 								Ok(r) => r,
-								Err(_) => {
-									let (msg, loc) = take_last_panic().unwrap_or_default();
-									Err(Failure { oracle: "panic".into(), detail: format!("panic at {}: {}", loc, msg), key: format!("panic@{}", loc) })
-								},
+								Err(_) => panic_verdict(&mut ctx),
 							};
 							st.evaluations += 1;
 							st.sub_evaluations += ctx.extra_evals;
@@ -819,10 +838,7 @@ impl Check {
 			let r = catch_unwind(AssertUnwindSafe(|| oracle(&value, &mut ctx)));
 			let r: CaseResult = match r {
 				Ok(r) => r,
-				Err(_) => {
-					let (msg, loc) = take_last_panic().unwrap_or_default();
-					Err(Failure { oracle: "panic".into(), detail: format!("panic at {}: {}", loc, msg), key: format!("panic@{}", loc) })
-				},
+				Err(_) => panic_verdict(&mut ctx),
 			};
 			if r.is_err() {
 				result = r;
